@@ -38,7 +38,7 @@ MOD = "mlinsights.mlmodel.piecewise_estimator"
 
 def check_a(ck, repo):
     fi = repo.func(MOD, "_fit_piecewise_estimator")
-    n = check_coindex(ck, "C08.a", repo, fi, methods={"fit"}, min_args=2)
+    n = check_coindex(ck, "C08.a", repo, fi, methods={"fit"}, min_args=3)
     if n == 0:
         ck.violated("C08.a", fi, "model.fit(Xi, yi, sample_weight=sw)", "the local model is no longer fitted on mask-selected X, y, sample_weight: rows, targets and weights of a bucket are not kept together")
     # the mask is association == <task id parameter>
